@@ -329,4 +329,18 @@ def ref_sort_order_by_key(index, ascending, key, result):
     return list(getattr(result, 'a', result).tolist()) == want
 
 
-REFS = dict(ref_sort_order_by_key=ref_sort_order_by_key, ref_frame_equals=ref_frame_equals, ref_frame_assign_series=ref_frame_assign_series, ref_dtype_per_depth=ref_dtype_per_depth, ref_ih_view=ref_ih_view, ref_ih_coherent=ref_ih_coherent, ref_series_assign=ref_series_assign, ref_has_missing=ref_has_missing, ref_index_equals=ref_index_equals, ref_series_equals=ref_series_equals, ref_set_fold=ref_set_fold, labels_of_array=labels_of_array, ref_map_slice_args=ref_map_slice_args, ref_windows=ref_windows, observed_windows=observed_windows, windows_agree=windows_agree, ref_tb_equals=ref_tb_equals, ref_slices_from_targets=ref_slices_from_targets)
+def ref_index_many(indices, cls_default, result):
+    """the combined index is of the first input's class only when every input is of that class (else of the default class), and carries the first name only when
+    every input carries it"""
+    idx = [getattr(i, 'obj', i) for i in indices]
+    c0 = idx[0].__class__
+    if all(i.__class__ is c0 for i in idx):
+        if c0.STATIC == cls_default.STATIC and type(result) is not c0:
+            return False
+    elif type(result) is not cls_default:
+        return False
+    want_name = idx[0].name if all(i.name == idx[0].name for i in idx) else None
+    return result.name == want_name
+
+
+REFS = dict(ref_index_many=ref_index_many, ref_sort_order_by_key=ref_sort_order_by_key, ref_frame_equals=ref_frame_equals, ref_frame_assign_series=ref_frame_assign_series, ref_dtype_per_depth=ref_dtype_per_depth, ref_ih_view=ref_ih_view, ref_ih_coherent=ref_ih_coherent, ref_series_assign=ref_series_assign, ref_has_missing=ref_has_missing, ref_index_equals=ref_index_equals, ref_series_equals=ref_series_equals, ref_set_fold=ref_set_fold, labels_of_array=labels_of_array, ref_map_slice_args=ref_map_slice_args, ref_windows=ref_windows, observed_windows=observed_windows, windows_agree=windows_agree, ref_tb_equals=ref_tb_equals, ref_slices_from_targets=ref_slices_from_targets)
